@@ -268,10 +268,10 @@ def ensure_facts(force=False, clean=False):
             with open(os.path.join(tmp, "CLEAN"), "w") as f:
                 f.write("facts of this snapshot were produced by a from-scratch pipeline run\n")
         os.rename(tmp, out)
-        # keep only the 3 most recent fact dirs
+        # keep only the most recent fact dirs (hard links: a dir costs only the fact files of the crates that differ)
         fd = os.path.join(CACHE, "facts")
         ds = sorted((os.path.getmtime(os.path.join(fd, d)), d) for d in os.listdir(fd) if d != "current")
-        for _, d in ds[:-4]:
+        for _, d in ds[:-int(os.environ.get("MECH_FACTS_KEEP", "24")):]:
             shutil.rmtree(os.path.join(fd, d), ignore_errors=True)
         log("pipeline done in %.1fs" % (time.time() - t0))
         return out
